@@ -130,8 +130,8 @@ class AllocatorAwarePointer
     {
         if (this != std::addressof(other))
         {
-            propagate_on_container_move_assignment(other);
             deallocate();
+            propagate_on_container_move_assignment(other);
             size() = other.size();
             get() = other.release();
         }
